@@ -159,23 +159,26 @@ at least one -/
 def parseRadix (radix : Nat) (cs : List Char) : Option Nat :=
   if !cs.isEmpty && cs.all (fun c => isHex c && hexVal c < radix) then some (radixVal radix cs) else none
 
+/-- exponent digits of a float: `"-"? digit+` -/
+def isFloatExp : List Char → Bool
+  | '-' :: d :: m => isDigit d && m.all isDigit
+  | d :: m => isDigit d && m.all isDigit
+  | [] => false
+
+/-- after the integer digits of a float: `("." digit*)? ([eE] "-"? digit+)?` -/
+def isFloatTail (r1 : List Char) : Bool :=
+  let r2 := match r1 with
+    | '.' :: more => more.dropWhile isDigit
+    | _ => r1
+  match r2 with
+  | [] => true
+  | e :: t => (e = 'e' || e = 'E') && isFloatExp t
+
 /-- Rust's `f64::from_str` on the texts that can reach it here (digits, `.`, `e`/`E`, `-`):
 `digit+ ("." digit*)? ([eE] "-"? digit+)?` -/
 def isFloatText (s : List Char) : Bool :=
   match s with
-  | d :: _ =>
-    isDigit d &&
-    (let r1 := s.dropWhile isDigit
-     let r2 := match r1 with
-       | '.' :: more => more.dropWhile isDigit
-       | _ => r1
-     match r2 with
-     | [] => true
-     | e :: t => (e = 'e' || e = 'E') &&
-       (match t with
-        | '-' :: d :: m => isDigit d && m.all isDigit
-        | d :: m => isDigit d && m.all isDigit
-        | [] => false))
+  | d :: _ => isDigit d && isFloatTail (s.dropWhile isDigit)
   | [] => false
 
 inductive NumLit where
@@ -183,19 +186,33 @@ inductive NumLit where
   | float          -- the value is `f64::from_str` of the text (not modelled)
   deriving Repr, DecidableEq
 
+/-- `to_parse.replace('_', "")` -/
+def stripUs (l : List Char) : List Char := l.filter (· ≠ '_')
+
+/-- `to_parse.strip_prefix("0x").and_then(|s| from_str_radix(s, 16).ok())` -/
+def hexAttempt (t : List Char) : Option Nat :=
+  match t with
+  | '0' :: 'x' :: r => parseRadix 16 r
+  | _ => none
+
+/-- `to_parse.strip_prefix("0b").and_then(|s| from_str_radix(s, 2).ok())` -/
+def binAttempt (t : List Char) : Option Nat :=
+  match t with
+  | '0' :: 'b' :: r => parseRadix 2 r
+  | _ => none
+
 /-- the handler (:668-692): underscores removed; decimal, then `0x…` hex, then `0b…` binary integer;
 else a float; else `panic!("… is not a number")` -/
 def numberLiteral (input : List Char) : Outcome NumLit :=
-  let t := input.filter (· ≠ '_')
-  match parseRadix 10 t with
+  match parseRadix 10 (stripUs input) with
   | some v => .ok (.int v)
   | none =>
-    match (match t with | '0' :: 'x' :: r => parseRadix 16 r | _ => none) with
+    match hexAttempt (stripUs input) with
     | some v => .ok (.int v)
     | none =>
-      match (match t with | '0' :: 'b' :: r => parseRadix 2 r | _ => none) with
+      match binAttempt (stripUs input) with
       | some v => .ok (.int v)
-      | none => if isFloatText t then .ok .float else .panic "is not a number"
+      | none => if isFloatText (stripUs input) then .ok .float else .panic "is not a number"
 
 /-! ### the identifier interner (`special_prefix_interner.rs`): `^item(0|[1-9][0-9]*)$`, index ≤ 65536 -/
 
